@@ -103,9 +103,26 @@ def main(ck, tier, w):
         for name, data in good[cb].items():
             with open(os.path.join(dump, name.split('-')[0] + '.csv.tmp'), 'wb') as f:
                 f.write(data * 3 + b'partial row without newline')
+        # ... and tmp files that failed runs of the OTHER callbacks left there: they are not this run's, it neither publishes nor
+        # touches them
+        foreign = {}
+        for other in FILECB:
+            if other != cb:
+                for name in good[other]:
+                    foreign[name.split('-')[0] + '.csv.tmp'] = b'partial output of a failed ' + other.encode() + b' run\n' * 7
+        for name, data in foreign.items():
+            with open(os.path.join(dump, name), 'wb') as f:
+                f.write(data)
         r = run.run_parser(d.path, cb, dump=dump)
         ck.evals()
-        probs = judge(cb, r, good[cb], final_names(cb, 0, n - 1))
+        mine = {k: v for k, v in r.files.items() if k not in foreign}
+        probs = []
+        for name, data in foreign.items():
+            if r.files.get(name) != data:
+                probs.append('tmp file %s of another callback was %s' % (name, 'removed or renamed' if name not in r.files else 'modified'))
+        r.listing = [f for f in r.listing if f not in foreign]
+        r.files = mine
+        probs += judge(cb, r, good[cb], final_names(cb, 0, n - 1))
         if probs:
             ck.violation('run into a folder holding tmp files of an earlier failed run (%s): %s' % (cb, '; '.join(probs)),
                          {'callback': cb, 'observed': r.brief(), 'tags': []})
